@@ -5,6 +5,7 @@ package main
 // recursion cycle contains a consuming call.
 
 import (
+	"os"
 	"fmt"
 	"go/constant"
 	"go/token"
@@ -567,6 +568,9 @@ func (m *Model) evalPureHook(fn *ssa.Function, args []constant.Value, resolve fu
 	res, ok := ip.Run(fn, in)
 	rc, isC := res.(constant.Value)
 	if !ok || !isC {
+		if os.Getenv("TWDEBUG") != "" {
+			fmt.Fprintf(os.Stderr, "evalPure %s: ok=%v res=%#v stuck=%q\n", fnKey(fn), ok, res, ip.stuck)
+		}
 		return nil, false
 	}
 	return rc, true
